@@ -114,7 +114,12 @@ func ValueDomain(n *Node) []string {
 		if two > hi {
 			two = hi
 		}
-		return []string{LLDenotation(scalars[:1]), LLDenotation(scalars[:two]), LLDenotation(scalars[1:hi])}
+		r := []string{LLDenotation(scalars[:1]), LLDenotation(scalars[:two]), LLDenotation(scalars[1:hi])}
+		if t == "string" {
+			// one element that reads like the first two joined by a comma
+			r = append(r, LLDenotation([]string{scalars[0] + "," + scalars[1]}))
+		}
+		return r
 	}
 	return scalars
 }
@@ -212,7 +217,7 @@ var UniChoice = &Universe{Name: "choice", Tmpls: tmpls(
 	"chc/nest/oi/na", "chc/nest/oi/nb", "chc/nest/oi/oil", "chc/nest/o1l", "chc/nest/oc",
 	"plain/descr", "plain/l1/descr",
 	"chc/cb-x/v", "chc/cl-more/v",
-	"chc/cbp", "chc/cbp/y",
+	"chc/cbp", "chc/cbp/y", "chc/nest/oi/nb2",
 )}
 
 // UniChoiceNoList: as UniChoice without the choice members inside list entries.
@@ -222,7 +227,7 @@ var UniChoiceNoList = &Universe{Name: "choice-nolist", Tmpls: tmpls(
 	"chc/nest/oi/na", "chc/nest/oi/nb", "chc/nest/oi/oil", "chc/nest/o1l", "chc/nest/oc",
 	"plain/descr", "plain/l1/descr",
 	"chc/cb-x/v", "chc/cl-more/v",
-	"chc/cbp", "chc/cbp/y",
+	"chc/cbp", "chc/cbp/y", "chc/nest/oi/nb2",
 )}
 
 var Universes = map[string]*Universe{"plain": UniPlain, "plain+nonalpha": UniPlainNA, "choice": UniChoice, "choice-nolist": UniChoiceNoList}
@@ -282,6 +287,12 @@ func GenLeafSels(t *rapid.T, u *Universe, min, max int, label string) []LeafSel 
 func GenPalette(t *rapid.T) []string {
 	// three distinct key values; biased to include separator characters
 	perm := rapid.Permutation(KeyAlphabet).Draw(t, "palette")
+	// now and then three values of which two pairs read the same once joined by a separator character
+	// (entry [x/y, x] next to entry [x, y/x])
+	if cp := rapid.SampledFrom([]int{0, 0, 0, 0, 0, 0, 0, 1, 2, 3}).Draw(t, "colliding-palette"); cp > 0 {
+		sep := []string{"/", " ", "_"}[cp-1]
+		return []string{"a", "a" + sep + "b", "b" + sep + "a"}
+	}
 	return append([]string{}, perm[:3]...)
 }
 
@@ -391,7 +402,49 @@ func GenHistCase(t *rapid.T, o HistGenOpts) *HistCase {
 	for i := 0; i < ns; i++ {
 		c.Steps = append(c.Steps, GenStep(t, o))
 	}
+	if collidingPalette(c.Palette) && rapid.Bool().Draw(t, "colliding-entries") {
+		// two entries of a multi-key list whose key values read the same once joined: [x.y, x] and [x, y.x]
+		var multi []int
+		for i, tm := range o.Universe.Tmpls {
+			lists, keys := 0, 0
+			n := Root
+			for _, nm := range tm.names {
+				n = n.Child(nm)
+				if n.Kind == KList {
+					lists++
+					keys = len(n.Keys)
+				}
+			}
+			if lists == 1 && keys >= 2 {
+				multi = append(multi, i)
+			}
+		}
+		var sets []*IntentOp
+		for si := range c.Steps {
+			for ii := range c.Steps[si].Intents {
+				if c.Steps[si].Intents[ii].Kind == "set" {
+					sets = append(sets, &c.Steps[si].Intents[ii])
+				}
+			}
+		}
+		if len(multi) > 0 && len(sets) > 0 {
+			ti := rapid.SampledFrom(multi).Draw(t, "colliding-t")
+			a := sets[rapid.IntRange(0, len(sets)-1).Draw(t, "colliding-op-a")]
+			b := a
+			if rapid.IntRange(0, 2).Draw(t, "colliding-two-ops") == 0 {
+				b = sets[rapid.IntRange(0, len(sets)-1).Draw(t, "colliding-op-b")]
+			}
+			v1 := rapid.IntRange(0, 2).Draw(t, "colliding-v1")
+			v2 := rapid.IntRange(0, 2).Draw(t, "colliding-v2")
+			a.Leaves = append(a.Leaves, LeafSel{T: ti, K: []int{1, 0, 0}, V: v1})
+			b.Leaves = append(b.Leaves, LeafSel{T: ti, K: []int{0, 2, 0}, V: v2})
+		}
+	}
 	return c
+}
+
+func collidingPalette(p []string) bool {
+	return len(p) == 3 && p[0] == "a" && len(p[1]) == 3 && len(p[2]) == 3 && p[1][0] == 'a' && p[2][0] == 'b' && p[1][1] == p[2][1] && p[1][2] == 'b' && p[2][2] == 'a'
 }
 
 // ---------------------------------------------------------------- model
